@@ -59,7 +59,7 @@ pub fn run(ctx: &mut Ctx) {
     ];
     ctx.replay_regressions(check);
     // (i)
-    let n = ctx.tier.pick(1_500, 40_000);
+    let n = ctx.tier.pick(4_000, 40_000);
     let strat = (wellformed_spec(), proptest::collection::vec((1u8..=8, any::<bool>()), 1..6), any::<bool>()).prop_map(|(s, spell, decode)| Input::History { lines: all_values(s, spell, decode) });
     ctx.run_proptest("all-256-values", &STD, n, strat, check);
     // (ii) in histories: a prefix that leaves the parser in some state, then lines of any
@@ -71,7 +71,7 @@ pub fn run(ctx: &mut Ctx) {
             Line::new(s.render(), decode)
         })
     });
-    let n2 = ctx.tier.pick(20_000, 600_000);
+    let n2 = ctx.tier.pick(80_000, 600_000);
     let strat = (adversarial_events(8), proptest::collection::vec(probe, 1..5)).prop_map(|(pre, probes)| {
         let mut lines: Vec<Line> = pre.iter().map(render_ev).collect();
         lines.extend(probes);
@@ -79,7 +79,7 @@ pub fn run(ctx: &mut Ctx) {
     });
     ctx.run_proptest("in-histories", &STD, n2, strat, check);
     // (iii) single-byte corruption at every position
-    let n3 = ctx.tier.pick(250, 6_000);
+    let n3 = ctx.tier.pick(800, 6_000);
     let strat = (wellformed_spec(), proptest::collection::vec(any::<u8>(), 3), any::<bool>()).prop_map(|(mut s, repl, decode)| {
         s.payload.truncate(40);
         let base = s.render();
